@@ -2,7 +2,7 @@
 //! accepts exactly the value sections that hold a whole number of queries (folding_factor elements each), for base, quadratic
 //! and cubic elements (element sizes 2, 4, 6 bytes at the toy field, so that `ELEMENT_BYTES * folding_factor` is NOT always a
 //! power of two), returns the values in order and recomputes each leaf from its query's values.
-use crypto::{BatchMerkleProof, ElementHasher};
+use crypto::{BatchMerkleProof, ElementHasher, RandomCoin};
 use fri::FriProof;
 use math::fields::{CubeExtension, QuadExtension};
 use math::FieldElement;
@@ -84,3 +84,79 @@ c15_layer_layout!(c15_layer_base_f2_q3, T, 1, 2, 3, 0, 20);
 c15_layer_layout!(c15_layer_cubic_f4_partial, C3, 3, 4, 1, 4, 40);
 // @ob id=C15 also=C03 tier=quick req=1 fs=1 to=900 name=c15_layer_base_f4_partial funcs="FriProof::read_from,FriProof::parse_layers,FriProofLayer::parse" bounds="F_257, folding 4, 1 query plus 2 surplus elements" sym="all value bytes, node digests" enum="element type, folding factor, number of queries, surplus"
 c15_layer_layout!(c15_layer_base_f4_partial, T, 1, 4, 1, 2, 20);
+
+// ---- FriVerifier::new: the degree bookkeeping of the commit phase -------------------------------------------------------------
+// An honest prover sends num_fri_layers(domain) + 1 commitments; the verifier's constructor must accept exactly the layer counts
+// for which the degree bound stays divisible by the folding factor before every folding step (the last commitment is the
+// remainder's and needs no divisibility), for every blowup factor, remainder size and degree bound 2^k - 1.
+use crate::coins::CtrCoin;
+use crate::hashers::{PairHash128 as PH2, PD128 as PD2};
+use fri::{FriOptions, FriVerifier, VerifierChannel, VerifierError};
+
+struct StubCh { commits: Vec<PD2> }
+impl VerifierChannel<T> for StubCh {
+    type Hasher = PH2;
+    fn read_fri_num_partitions(&self) -> usize { 1 }
+    fn read_fri_layer_commitments(&mut self) -> Vec<PD2> { self.commits.clone() }
+    fn take_next_fri_layer_proof(&mut self) -> BatchMerkleProof<PH2> { unreachable!() }
+    fn take_next_fri_layer_queries(&mut self) -> Vec<T> { unreachable!() }
+    fn take_fri_remainder(&mut self) -> Vec<T> { unreachable!() }
+}
+
+macro_rules! c15_verifier_new {
+    ($name:ident, $fold:expr, $c:expr) => {
+        #[kani::proof]
+        #[kani::unwind(12)]
+        #[kani::stub(alloc::fmt::format, nofmt)]
+        fn $name() {
+            let k: u32 = kani::any();
+            let lb: u32 = kani::any();
+            kani::assume(lb >= 1 && lb <= 3 && k + lb <= 8);
+            let blowup = 1usize << lb;
+            let rmd_log: u32 = kani::any();
+            kani::assume(rmd_log <= 4);
+            let options = FriOptions::new(blowup, $fold, (1usize << rmd_log) - 1);
+            // c layer commitments + the remainder commitment
+            let mut commits = Vec::new();
+            let mut i = 0;
+            while i < $c + 1 { commits.push(PD2::mk(i as u128 + 1, 8)); i += 1; }
+            let mut ch = StubCh { commits };
+            let mut coin = CtrCoin::new(&[]);
+            // degree bound: 2^k - 1 (the documented use) or, one case in two, any bound whose padded domain is the same
+            let d: usize = kani::any();
+            kani::assume(d < (1usize << k) && d + 1 > (1usize << k) / 2);
+            let pow2 = d + 1 == (1usize << k);
+            let res = FriVerifier::<T, StubCh, PH2, CtrCoin>::new(&mut ch, &mut coin, options.clone(), d);
+            // expected: before each of the c folding steps the number of coefficients is divisible by the folding factor
+            let mut divisible = true;
+            let mut m = d + 1;
+            let mut i = 0;
+            while i < $c { if m % $fold != 0 { divisible = false; } m /= $fold; i += 1; }
+            let lf = ($fold as usize).ilog2();
+            if pow2 { assert!(divisible == (lf * $c <= k)); }
+            assert!(res.is_ok() == divisible);
+            if let Ok(v) = &res {
+                // the verifier keeps the caller's degree bound (it is what the remainder's degree is checked against)
+                assert!(v.max_poly_degree() == d && v.domain_size() == (1usize << k) * blowup && v.num_partitions() == 1);
+            }
+            kani::cover!(res.is_ok() && !pow2);
+            // the honest layer count for this domain is accepted whenever the prover can fold that often at all
+            if options.num_fri_layers((1usize << k) * blowup) == $c && divisible { assert!(res.is_ok()); }
+            kani::cover!(pow2 && res.is_ok() && options.num_fri_layers((1usize << k) * blowup) == $c);
+            kani::cover!(res.is_err());
+            core::mem::forget((res, ch));
+        }
+    };
+}
+// @ob id=C15 also=C05 tier=quick req=1 to=900 name=c15_verifier_new_f2_c3 funcs="FriVerifier::new,FriOptions::{new,num_fri_layers}" bounds="F_257, folding 2, 3 layers + remainder commitment; degree bound d with 2^(k-1) <= d < 2^k, k + log2(blowup) <= 8" sym="d, k, blowup in {2,4,8}, remainder max degree in {0,1,3,7,15}" enum="folding factor, number of commitments"
+c15_verifier_new!(c15_verifier_new_f2_c3, 2, 3);
+// @ob id=C15 also=C05 tier=quick req=1 to=900 name=c15_verifier_new_f4_c1 funcs="FriVerifier::new,FriOptions::{new,num_fri_layers}" bounds="F_257, folding 4, 1 layer + remainder commitment; degree bound 2^k - 1, k + log2(blowup) <= 8" sym="k, blowup, remainder max degree" enum="folding factor, number of commitments"
+c15_verifier_new!(c15_verifier_new_f4_c1, 4, 1);
+// @ob id=C15 also=C05 tier=quick req=1 to=900 name=c15_verifier_new_f4_c2 funcs="FriVerifier::new,FriOptions::{new,num_fri_layers}" bounds="F_257, folding 4, 2 layers + remainder commitment" sym="k, blowup, remainder max degree" enum="folding factor, number of commitments"
+c15_verifier_new!(c15_verifier_new_f4_c2, 4, 2);
+// @ob id=C15 also=C05 tier=quick req=1 to=900 name=c15_verifier_new_f8_c1 funcs="FriVerifier::new,FriOptions::{new,num_fri_layers}" bounds="F_257, folding 8, 1 layer + remainder commitment" sym="k, blowup, remainder max degree" enum="folding factor, number of commitments"
+c15_verifier_new!(c15_verifier_new_f8_c1, 8, 1);
+// @ob id=C15 also=C05 tier=quick req=1 to=900 name=c15_verifier_new_f16_c1 funcs="FriVerifier::new,FriOptions::{new,num_fri_layers}" bounds="F_257, folding 16, 1 layer + remainder commitment" sym="k, blowup, remainder max degree" enum="folding factor, number of commitments"
+c15_verifier_new!(c15_verifier_new_f16_c1, 16, 1);
+// @ob id=C15 also=C05 tier=quick req=1 to=900 name=c15_verifier_new_f2_c0 funcs="FriVerifier::new,FriOptions::{new,num_fri_layers}" bounds="F_257, folding 2, no layer, remainder commitment only" sym="k, blowup, remainder max degree" enum="folding factor, number of commitments"
+c15_verifier_new!(c15_verifier_new_f2_c0, 2, 0);
